@@ -116,6 +116,22 @@ static ContentPtr mknumpy_dispatch(Toks& tk, const std::string& dts, const std::
   if (dts == "uint64") return mknumpy<uint64_t>(tk, util::dtype::uint64, shape, strides, off, nbuf, false, true);
   if (dts == "float32") return mknumpy<float>(tk, util::dtype::float32, shape, strides, off, nbuf, true, false);
   if (dts == "float64") return mknumpy<double>(tk, util::dtype::float64, shape, strides, off, nbuf, true, false);
+  // complex numbers: every item is two tokens (real, imaginary)
+  if (dts == "complex128" || dts == "complex64") {
+    bool dbl = (dts == "complex128");
+    int64_t isz = dbl ? 16 : 8;
+    std::shared_ptr<void> ptr = kernel::malloc<void>(kernel::lib::cpu, (nbuf == 0 ? 1 : nbuf) * isz);
+    for (int64_t i = 0; i < 2 * nbuf; i++) {
+      double v = tk.f64();
+      if (dbl) reinterpret_cast<double*>(ptr.get())[i] = v;
+      else reinterpret_cast<float*>(ptr.get())[i] = (float)v;
+    }
+    std::vector<ssize_t> bstrides;
+    for (auto st : strides) bstrides.push_back(st * (ssize_t)isz);
+    util::dtype dt = dbl ? util::dtype::complex128 : util::dtype::complex64;
+    return std::make_shared<NumpyArray>(Identities::none(), util::Parameters(), ptr, shape, bstrides,
+                                        off * (ssize_t)isz, (ssize_t)isz, util::dtype_to_format(dt), dt, kernel::lib::cpu);
+  }
   // datetimes and time differences: 64-bit tick counts with the unit in the format, e.g. M8[ms] / m8[s]
   if (dts.rfind("M8[", 0) == 0) return mknumpy<int64_t>(tk, util::dtype::datetime64, shape, strides, off, nbuf, false, false, dts);
   if (dts.rfind("m8[", 0) == 0) return mknumpy<int64_t>(tk, util::dtype::timedelta64, shape, strides, off, nbuf, false, false, dts);
